@@ -464,6 +464,13 @@ class C13(Check):
             for label, sp, path in self._cases(ctx, wntr):
                 try:
                     wn = G.realise(wntr, sp) if sp is not None else wntr.network.read_inpfile(path)
+                    if sp is not None and ctx.rng.random() < 0.3 and wn.num_junctions > 0:
+                        # a leak that was added and removed again: remove_leak keeps leak_area / leak_discharge_coeff
+                        jn = wn.get_node(wn.junction_name_list[0])
+                        if not jn._leak:
+                            jn.add_leak(wn, 0.0125, 0.6, 3600, 7200)
+                            jn.remove_leak(wn)
+                            ctx.count("case:leak-added-and-removed")
                     if label.startswith("inp+sim:"):
                         wn.options.time.duration = 2 * wn.options.time.hydraulic_timestep
                         node0 = wn.junction_name_list[0]
